@@ -136,6 +136,11 @@ def cases(chk):
         {"auto": False, "contacts": 1, "events": [["recv", 0, 1], ["reinstall", 0], ["recv", 0, 2], ["recv", 0]]},
         {"auto": True, "contacts": 1, "events": [["send", 0], ["reinstall", 0], ["recv", 0, 1], ["send", 0]]},
     ]
+    # whose pin an incoming stanza is checked against: every chat shape x participant present / absent x envelope kind
+    for chat in ("4915200002@s.whatsapp.net", "4915200002-1400000000@g.us", "status@broadcast", "1500000099@broadcast", "4915200003@s.whatsapp.net"):
+        for part in (None, "4915200002@s.whatsapp.net", "4915200003@s.whatsapp.net"):
+            for et in ("pkmsg", "msg", "skmsg"):
+                yield "author", {"chat": chat, "participant": part, "enc": et}
     for c in corpus:
         yield "history", c
     # the same histories with the setting stored as other values of the same truth value (0, None, "" / 1, "yes")
@@ -158,10 +163,14 @@ def cases(chk):
 
 
 def nontrivial(stream, case):
+    if stream == "author":
+        return (stream, repr(case))
     return (case["auto"], case["contacts"], tuple(tuple(e) for e in case["events"]), case.get("flavour", 0))
 
 
 def shrink(stream, case):
+    if stream == "author":
+        return
     evs = case["events"]
     for i in range(len(evs)):
         yield dict(case, events=evs[:i] + evs[i + 1:])
@@ -242,7 +251,28 @@ class World(object):
         return str(self.key_no(ci, bytes(rk.getPublicKey().serialize())))
 
 
+def run_author(chk, case):
+    from yowsup.layers.axolotl.protocolentities import EncryptedMessageProtocolEntity
+    attrs = {"id": "A1", "from": case["chat"], "t": "1500000000", "type": "text", "notify": "n"}
+    if case["participant"]:
+        attrs["participant"] = case["participant"]
+    node = sim.N("message", attrs, [sim.N("enc", {"type": case["enc"], "v": "2"}, None, b"\x33\x08\x01")])
+    chk.hit("author:%s:%s" % (case["chat"].split("@")[1], "participant" if case["participant"] else "direct"))
+    try:
+        got = EncryptedMessageProtocolEntity.fromProtocolTreeNode(node).getAuthor(False)
+    except Exception as e:
+        got = "raised:" + type(e).__name__
+    model = chk.driver.ask("trust author %s %s" % (case["chat"].split("@")[0], case["participant"].split("@")[0] if case["participant"] else "-"))
+    if got != model:
+        return [corr("author", "stanza from %s participant %s (%s): the pin is looked up under %r, the model's author is %r" % (case["chat"], case["participant"], case["enc"], got, model)),
+                oracle("C17:pin-looked-up-under-the-wrong-name", "an incoming %s stanza in chat %s written by %s is checked against the pin of %r" % (case["enc"], case["chat"], case["participant"], got))
+                if case["participant"] else corr("author", "as above")][:2 if case["participant"] else 1]
+    return []
+
+
 def run_case(chk, stream, case):
+    if stream == "author":
+        return run_author(chk, case)
     from yowsup.layers.protocol_messages.protocolentities import TextMessageProtocolEntity
     fails = []
     d = chk.driver
